@@ -918,7 +918,102 @@ def c15(ctx):
     corpus_validate(ctx, scripts, "c15tests")
 
 
+PLANTS = [
+    # (token text, kind, column offset of the reported position, expected message prefix)
+    (")", "sym", 0, "unexpected ')'"),
+    ("]", "sym", 0, "unexpected ']'"),
+    (",", "sym", 0, "unexpected ','"),
+    ("else", "word", 0, "unexpected '`else`'"),
+    ("in", "word", 0, "unexpected '`in`'"),
+    ("==", "sym", 0, "unexpected '=='"),
+    ("@", "sym", 0, "unexpected '@'"),
+    ("é", "sym", 0, "unexpected 'é'"),
+    ("&", "sym", 0, "unexpected '&'"),
+    ('"a\\q"', "str", 3, "'q' is not a valid escape character"),
+    ('"é\\xg1"', "str", 4, "'g' is not a valid hex character"),
+    ('"€$"', "str", 2, "'$' must be escaped"),
+    ('$"ab$c"', "str", 5, "interpolation slots start with '{', got 'c'"),
+    ("99999999999999999999", "int", 0, "'99999999999999999999' is too high for an int"),
+    ("9_223_372_036_854_775_808", "int", 0, "'9_223_372_036_854_775_808' is too high for an int"),
+]
+
+
+def planted_errors(ctx, cases, name, seeds):
+    """Plants a token that must be rejected at a statement boundary of a generated
+    program and requires the diagnostic to point at it (line, column counted in
+    characters by the renderer), under several layouts of the preceding text."""
+    import random
+    plain = sv.build(False)
+    d = sv.scratch("plant-" + name)
+    rnd = random.Random(ctx.seed)
+    jobs = []
+    for i, (key, body, outcome) in enumerate(cases):
+        if not body:
+            continue
+        for si, seed in enumerate(seeds):
+            jobs.append((i, si, seed, key, body, rnd.randrange(len(body) + 1), rnd.randrange(len(PLANTS))))
+
+    def one(job):
+        i, si, seed, key, body, at, pi_ = job
+        text, kind, off, msg = PLANTS[pi_]
+        planted = list(body[:at]) + [{"t": "raw", "text": text, "kind": kind, "loc": [0, 7, 7]}] + list(body[at:])
+        pl = rp.Placed(planted, None if seed is None else (hash((seed, i)) & 0x7fffffff), wild=0.6)
+        fn = "s%d_%d.sd" % (i, si)
+        with open(os.path.join(d, fn), "w", encoding="utf-8") as f:
+            f.write(pl.text)
+        so, se, code = sv.run_seed(plain, fn, d)
+        l, c = pl.pos[(0, 7, 7)]
+        want = ("%s:%d:%d: %s" % (fn, l, c + off, msg)).encode()
+        ok = code == 103 and so == b"" and se.startswith(want)
+        return None if ok else (key, pl.text, want.decode(), so, se, code)
+    res = sv.pmap(one, jobs)
+    ctx.evaluations += len(jobs)
+    ctx.validated += len(jobs)
+    for r in res:
+        if r:
+            key, text, want, so, se, code = r
+            ctx.violation("a planted offending token is not reported at its position (%s %s)" % (name, key),
+                          script=text, detail={"expected_prefix": want, "stdout": so.decode(errors="replace"),
+                                               "stderr": se.decode(errors="replace"), "exit": code})
+    return len(jobs)
+
+
+def c18(ctx):
+    import lexcheck as lx
+    nseeds = 3 if ctx.quick else 8
+    ctx.rule = ("positions: (a) SeedLex PosInv (incremental line/column = the declarative position) on all strings "
+                "<= 2-3 over the branch alphabet incl. tab, CR, LF, comments, 2- and 4-byte characters; (b) the "
+                "failing programs of the C17 model (every runtime error kind x hosting position, call depth 0-1) "
+                "rendered under %d seeded layouts (blank lines, tabs, CR LF, comments with multi-byte text, "
+                "continuation breaks): the diagnostic position and every stack-trace position must be where the "
+                "renderer recorded the anchor token, and the position of every AST node must equal the renderer's "
+                "record; (c) the token stream of every rendered text against SeedLex (start and end of every token); "
+                "(d) 15 planted offending tokens (syntax errors, unexpected characters, bad escapes after multi-byte "
+                "text, unescaped $, bad slot start, integer overflow) at a random statement boundary under layouts; "
+                "non-trivial = every (program, layout)" % nseeds)
+    specs = run_mc_lex(ctx, 2 if ctx.quick else 3, "FullAlphabet", "MC_Lex_pos")
+    lx.check_texts(ctx, [lx.text_of(o["src"]) for o in specs], specs, "c18lex", "C18")
+    out = ctx.run_model("MC_C17", "C17Params", invariants=["C17Laws"],
+                        constants={"MaxDepth": "= %d" % (0 if ctx.quick else 1)}, name="MC_C17pos", workers=16)
+    seeds = tuple(ctx.seed * 1000 + i for i in range(nseeds))
+    cases, _ = ctx.replay(out, "c18", seeds=seeds, render_opts={"wild": 0.6, "underscore_prob": 0.3})
+    # (c) token positions of rendered texts
+    d = os.path.join(sv.WORK, "replay-c18")
+    files = sorted(f for f in os.listdir(d) if f.endswith(".sd"))
+    files = files[:: max(1, len(files) // (1500 if ctx.quick else 12000))]
+    texts = [open(os.path.join(d, f), encoding="utf-8").read() for f in files]
+    outs, st = lx.spec_lex(texts, "c18texts")
+    ctx.states += st["distinct"]
+    ctx.transitions += st["generated"]
+    ctx.models["SeedLexRun:c18texts"] = {"module": "SeedLexRun", "texts": len(texts),
+                                         "distinct_states": st["distinct"], "states_generated": st["generated"]}
+    lx.check_texts(ctx, texts, outs, "c18texts", "C18")
+    # (d) planted syntax / lexical errors
+    planted_errors(ctx, cases[:: (4 if ctx.quick else 1)], "c18", seeds[: (2 if ctx.quick else 4)])
+
+
 REGISTRY = {
+    "C18": c18,
     "C15": c15,
     "C09": c09,
     "C03": c03,
